@@ -59,6 +59,15 @@ func genStructs(t *rapid.T) Case {
 		c.Args = []val.V{val.L(genElems(t, 0, 4)...), genElem(t)}
 	case "s.match_list":
 		c.Args = []val.V{val.L(genElems(t, 0, 4)...)}
+		if rapid.Bool().Draw(t, "nonList") {
+			other := genElem(t)
+			if rapid.IntRange(0, 2).Draw(t, "emptyShape") == 0 {
+				other = rapid.SampledFrom([]val.V{val.M(), val.St(), val.I(0), val.S(""), val.N("/a"), val.B(nil), val.F(0)}).Draw(t, "emptyish")
+			}
+			if other.T != val.List {
+				c.Args = append(c.Args, other)
+			}
+		}
 	case "s.member":
 		es := genElems(t, 0, 5)
 		var probe val.V
